@@ -823,9 +823,10 @@ func (r *rewriter) goStmt(g *ast.GoStmt) ast.Stmt {
 	if fl, ok := c.Fun.(*ast.FuncLit); ok {
 		r.block(fl.Body)
 		fun = fl
-		if len(args) == 0 {
+		if len(args) == 0 && (fl.Type.Results == nil || len(fl.Type.Results.List) == 0) {
 			return &ast.ExprStmt{X: call(mc("Go"), strLit(r.site(g.Pos())), fl)}
 		}
+		// (a literal with results, e.g. `go func() (err error) {...}()`, is called inside a plain func())
 		fun = &ast.ParenExpr{X: fl}
 	} else {
 		f := r.rewriteExpr(c.Fun)
